@@ -84,6 +84,9 @@ func (bucket *Bucket) _closeSqliteDB() {
 
 // Closes a bucket and deletes its directory and files (unless it's in-memory.)
 func (bucket *Bucket) CloseAndDelete(ctx context.Context) (err error) {
+	// Stop expiration before taking the bucket mutex: a running expiration holds the expiry
+	// manager's mutex and needs the bucket mutex to finish.
+	bucket.expManager.stop()
 	bucket.mutex.Lock()
 	defer bucket.mutex.Unlock()
 	bucket._closeSqliteDB()
